@@ -22,6 +22,9 @@ struct Plugin {
     vec: unsafe extern "C" fn(usize) -> CVec<u64>,
     use_store: unsafe extern "C" fn(StoreBox<'static>, u64) -> u64,
     take_vec: unsafe extern "C" fn(CVec<u64>) -> u64,
+    grow_vec: unsafe extern "C" fn(CVec<u64>, u64) -> CVec<u64>,
+    arc: unsafe extern "C" fn() -> CArc<c_void>,
+    arc_clone_drop: unsafe extern "C" fn(CArc<c_void>) -> CArc<c_void>,
     marks: unsafe extern "C" fn() -> [u64; 2],
     stats: unsafe extern "C" fn(u64, u64) -> ModuleStats,
     viol: unsafe extern "C" fn(CSliceMut<u8>) -> usize,
@@ -43,6 +46,9 @@ fn load(path: &str) -> Plugin {
             vec: sym!(b"plugin_vec"),
             use_store: sym!(b"plugin_use_store"),
             take_vec: sym!(b"plugin_take_vec"),
+            grow_vec: sym!(b"plugin_grow_vec"),
+            arc: sym!(b"plugin_arc"),
+            arc_clone_drop: sym!(b"plugin_arc_clone_drop"),
             marks: sym!(b"plugin_marks"),
             stats: sym!(b"plugin_stats"),
             viol: sym!(b"plugin_violation_text"),
@@ -60,6 +66,9 @@ trait Side {
     fn vec(&self, n: usize) -> CVec<u64>;
     fn use_store(&self, s: StoreBox<'static>, k: u64) -> u64;
     fn take_vec(&self, v: CVec<u64>) -> u64;
+    fn grow_vec(&self, v: CVec<u64>, k: u64) -> CVec<u64>;
+    fn arc(&self) -> CArc<c_void>;
+    fn arc_clone_drop(&self, a: CArc<c_void>) -> CArc<c_void>;
 }
 impl Side for Plugin {
     fn root(&self, ctx: CArc<c_void>) -> FactoryArcBox<'static> { unsafe { (self.root)(ctx) } }
@@ -68,6 +77,9 @@ impl Side for Plugin {
     fn vec(&self, n: usize) -> CVec<u64> { unsafe { (self.vec)(n) } }
     fn use_store(&self, s: StoreBox<'static>, k: u64) -> u64 { unsafe { (self.use_store)(s, k) } }
     fn take_vec(&self, v: CVec<u64>) -> u64 { unsafe { (self.take_vec)(v) } }
+    fn grow_vec(&self, v: CVec<u64>, k: u64) -> CVec<u64> { unsafe { (self.grow_vec)(v, k) } }
+    fn arc(&self) -> CArc<c_void> { unsafe { (self.arc)() } }
+    fn arc_clone_drop(&self, a: CArc<c_void>) -> CArc<c_void> { unsafe { (self.arc_clone_drop)(a) } }
 }
 struct Local;
 impl Side for Local {
@@ -77,6 +89,9 @@ impl Side for Local {
     fn vec(&self, n: usize) -> CVec<u64> { CVec::from((0..n as u64).collect::<Vec<_>>()) }
     fn use_store(&self, mut s: StoreBox<'static>, k: u64) -> u64 { let a = s.put(k, &[1, 2, 3]); a ^ s.get(k).len() as u64 }
     fn take_vec(&self, v: CVec<u64>) -> u64 { v.iter().sum() }
+    fn grow_vec(&self, v: CVec<u64>, k: u64) -> CVec<u64> { xapi::grow_vec(v, k) }
+    fn arc(&self) -> CArc<c_void> { CArc::from(Tracked::new()).into_opaque() }
+    fn arc_clone_drop(&self, a: CArc<c_void>) -> CArc<c_void> { let c = a.clone(); drop(a); c }
 }
 
 fn store_ops<S: Store>(s: &mut S, r: &mut Rng, n: usize, d: &mut u64) {
@@ -142,7 +157,7 @@ fn history(side: &dyn Side, seed: u64, ctx_arc: &Arc<Tracked>) -> (u64, Vec<Stri
     let mut groups: Vec<StoreGroupArcBox<'static>> = vec![];
     let mut borrowed_calls = 0usize;
     for _ in 0..(4 + r.below(20)) {
-        match r.below(12) {
+        match r.below(14) {
             0 if root.is_some() && stores.len() < 4 => stores.push(root.as_ref().unwrap().make(r.next())),
             1 if root.is_some() && groups.len() < 3 => groups.push(root.as_ref().unwrap().make_group(r.next())),
             2 if plain.len() < 3 => plain.push(side.store(r.next())),
@@ -170,10 +185,41 @@ fn history(side: &dyn Side, seed: u64, ctx_arc: &Arc<Tracked>) -> (u64, Vec<Stri
             }
             8 if !plain.is_empty() => { let s = plain.swap_remove(r.below(plain.len())); d = mix(d, side.use_store(s, r.below(4) as u64)); }
             9 => {
+                // a vector made by `side` (exact capacity), edited here with every growing and shrinking operation
                 let mut v = side.vec(r.below(6));
-                for i in 0..r.below(40) { v.push(i as u64 * 3); }
-                let s: u64 = v.iter().sum();
-                d = mix(d, if r.chance(1, 2) { drop(v); s } else { side.take_vec(v) });
+                for i in 0..r.below(40) {
+                    match r.below(6) {
+                        0 | 1 => v.push(i as u64 * 3),
+                        2 => { let at = r.below(v.len() + 1); v.insert(at, i as u64 ^ 0x55); }
+                        3 if !v.is_empty() => { let at = r.below(v.len()); d = mix(d, v.remove(at)); }
+                        4 => d = mix(d, v.pop().unwrap_or(7)),
+                        _ => v.reserve(r.below(9)),
+                    }
+                }
+                if r.chance(1, 3) { v = side.grow_vec(v, r.below(20) as u64); }
+                let s: u64 = v.iter().fold(v.len() as u64, |a, x| mix(a, *x));
+                d = mix(d, if r.chance(1, 2) { drop(v); s } else { s ^ side.take_vec(v) });
+            }
+            11 => {
+                // a vector made here, grown (front inserts) by `side`, then edited and released here
+                let n = r.below(5);
+                let mut v = CVec::from((0..n as u64).map(|i| mix(i, 9)).collect::<Vec<_>>());
+                v = side.grow_vec(v, 1 + r.below(12) as u64);
+                v.insert(0, 1);
+                d = mix(d, v.iter().fold(v.len() as u64, |a, x| mix(a, *x)));
+            }
+            12 => {
+                // reference-counted values: made by `side`, cloned here and there, released in every order
+                let a = side.arc();
+                let b = a.clone();
+                let c = side.arc_clone_drop(b);
+                let e = c.clone();
+                match r.below(3) { 0 => { drop(a); drop(c); drop(e); } 1 => { drop(e); drop(c); drop(a); } _ => { drop(c); drop(a); drop(e); } }
+                // made here, cloned by `side`, the foreign clone released last
+                let h = CArc::from(Tracked::new()).into_opaque();
+                let h2 = side.arc_clone_drop(h.clone());
+                if r.chance(1, 2) { drop(h); drop(h2); } else { drop(h2); drop(h); }
+                d = mix(d, 12);
             }
             10 if root.is_some() && r.chance(1, 3) => d = mix(d, root.take().unwrap().fin()),
             _ => {
